@@ -980,6 +980,13 @@ func (ex *Executor) evalCallSpec(e *SExpr, env *SpecEnv) (Val, error) {
 		return specInt(App("slicecontent", SInt, Select(earr, ex.sarr(a.T)), ex.soff(a.T), ex.slen(a.T))), nil
 	case "cancelled":
 		return specBool(Bool(env.st.cancelled)), nil
+	case "chancap":
+		// capacity of a channel (fixed when it is made)
+		a, err := argv(0)
+		if err != nil {
+			return Val{}, err
+		}
+		return specInt(App("chancap", SInt, a.T)), nil
 	case "bitand":
 		// a & b, modelled exactly as the executor models the Go operator (per bit for narrow unsigned types with a
 		// constant operand, an uninterpreted function otherwise)
